@@ -77,6 +77,9 @@ def generate(master, index, tier):
                 big_left -= 1
         chunks.append([_body(rng, n).hex(), rng.choice("lum"), rng.choice((0, 0, 0, 1, 2))])
     enc = rng.choice(ENCS)
+    if enc != 1 and rng.random() < 0.15:
+        # under compression a data chunk may legitimately decode to nothing (e.g. gzip of b"")
+        chunks.insert(rng.randrange(len(chunks) + 1), ["", "l", 0])
     bufsize = rng.choice(BUFSIZES)
     if bufsize <= 2 and sum(len(c[0]) for c in chunks) > 4000:
         bufsize = rng.choice((5, 7, 64))
